@@ -503,6 +503,10 @@ func genGroup(t *rapid.T) groupCase {
 	if rapid.Bool().Draw(t, "extraTopic") {
 		c.Parts = append(c.Parts, part{Topic: "unsubscribed", ID: 0, Rack: "a"})
 	}
+	if len(c.Parts) > 1 && rapid.IntRange(0, 2).Draw(t, "interleaveTopics") == 0 {
+		// the partitions of different topics need not be listed topic by topic
+		c.Parts = rapid.Permutation(c.Parts).Draw(t, "globalListing")
+	}
 	c.Perm = rapid.Permutation(seq(M)).Draw(t, "perm")
 	if c.Balancer == "rack-affinity" {
 		c.Repeats = 8
